@@ -202,3 +202,14 @@ shrink_candidates = fam_iovw.shrink_candidates
 
 def explain(bad):
     return {"spec": "after every operation every object's slices (lengths, chunk, offset), anchors (count, chunk), allocation cache (chunk, capacity, bump), pending backrefs, buffered bytes, return value and the live chunk/byte counters equal the prediction of the geometry-faithful model iovec/Geo.v"}
+
+
+def semantic(case, obs, is_model):
+    """What the properties talk about: return values, sizes, hole-freeness and bytes -- not where the bytes live."""
+    out = []
+    for b in canon(case, obs, is_model):
+        if b == [99]:
+            out.append(b)
+            break
+        out.append([b[0], [None if o is None else [o[0][0], o[0][2], o[2]] for o in b[1]]])
+    return out
